@@ -51,6 +51,8 @@ finally:
     sh("git -C /repo checkout -- .")
     # tables regenerated from the mutated source must not stay behind
     sh("git -C /verif checkout -- lean/DefconModel/Gen")
+    # the evidence file must describe the unchanged tree again
+    sh("./check %s --tier quick" % prop, cwd=VERIF)
 notes = os.path.join(src, "notes.md")
 meta["needs"] = open(notes).read()[:1500] if os.path.exists(notes) else ""
 meta["ran"] = ["git apply patch.diff (scratch worktree of /repo HEAD)", "pytest -q -p no:cacheprovider (396 passed)",
